@@ -60,7 +60,7 @@ theorem saveSeq_succeeds (s : State) (a : Bool) (b : Block) (h : 0 ≤ s.lastSeq
 theorem saveSeq_frame {s s' : State} {a : Bool} {b : Block} (h : saveSeq s a b = .ok s') :
     s'.fin = s.fin ∧ s'.margin = s.margin ∧ s'.recSeq = s.recSeq ∧ s'.index = s.index ∧
     s'.orphans = s.orphans ∧ s'.best = s.best ∧ s'.stored = s.stored ∧ s'.tds = s.tds ∧
-    s'.h2h = s.h2h ∧ s'.last = s.last := by
+    s'.h2h = s.h2h ∧ s'.last = s.last ∧ s'.txIdx = s.txIdx := by
   rcases saveSeq_ok h with ⟨_, rfl⟩ | ⟨_, _, rfl⟩ <;> simp [seqAfter]
 
 theorem connectBlock_ok {s s1 : State} {b : Block} (h : connectBlock s b = .ok s1) :
@@ -68,7 +68,7 @@ theorem connectBlock_ok {s s1 : State} {b : Block} (h : connectBlock s b = .ok s
       s.tds b.parent = some ptd ∧
       s1 = { sq with stored := upd s.stored b.id (some b), h2h := upd s.h2h b.height (some b.id),
                      last := b.height, tds := upd s.tds b.id (some (b.diff + ptd)),
-                     best := b :: s.best } := by
+                     best := b :: s.best, txIdx := addTxs s.txIdx b } := by
   unfold connectBlock at h
   split at h
   · simp at h
@@ -86,11 +86,12 @@ theorem connectBlock_ok {s s1 : State} {b : Block} (h : connectBlock s b = .ok s
           simp only [Except.ok.injEq] at h
           refine ⟨tip, rest, sq, ptd, hbest, by simpa using hp, hsq, ?_, ?_⟩
           · rw [← hf.2.2.2.2.2.2.2.1]; exact hptd
-          · rw [← h, hf.2.2.2.2.2.2.1, hf.2.2.2.2.2.2.2.1, hf.2.2.2.2.2.2.2.2.1, hf.2.2.2.2.2.1]
+          · rw [← h, hf.2.2.2.2.2.2.1, hf.2.2.2.2.2.2.2.1, hf.2.2.2.2.2.2.2.2.1, hf.2.2.2.2.2.1, hf.2.2.2.2.2.2.2.2.2.2]
 
 theorem disconnectBlock_ok {s s1 : State} {b : Block} (h : disconnectBlock s b = .ok s1) :
     ∃ tip rest sq, s.best = tip :: rest ∧ b.id = tip.id ∧ saveSeq s false b = .ok sq ∧
-      s1 = { sq with h2h := upd s.h2h b.height none, last := (b.height : Int) - 1, best := rest } := by
+      s1 = { sq with h2h := upd s.h2h b.height none, last := (b.height : Int) - 1, best := rest,
+                     txIdx := delTxs s.txIdx b } := by
   unfold disconnectBlock at h
   split at h
   · simp at h
@@ -104,6 +105,6 @@ theorem disconnectBlock_ok {s s1 : State} {b : Block} (h : disconnectBlock s b =
         have hf := saveSeq_frame hsq
         simp only [Except.ok.injEq] at h
         refine ⟨tip, rest, sq, hbest, by simpa using hp, hsq, ?_⟩
-        rw [← h, hf.2.2.2.2.2.2.2.2.1]
+        rw [← h, hf.2.2.2.2.2.2.2.2.1, hf.2.2.2.2.2.2.2.2.2.2]
 
 end C25
